@@ -103,10 +103,11 @@ def bounds(tier):
     if tier == "quick":
         return {"Ns": [2, 3, 4, 5, 6, 7, 8], "lattice_max": 5, "gint_lattice_max": 3,
                 "time_n": [3, 4, 5], "coal_n": [2, 3, 4, 5, 6], "ss_n": [2, 3, 4, 5], "G": [1, 2, 3],
-                "G_big": {}}
+                "G_big": {}, "pair_G": {2: 3, 3: 3, 4: 3, 5: 1}}
     return {"Ns": [2, 3, 4, 5, 6, 7, 8, 10, 15, 20, 30, 40, 50], "lattice_max": 7,
             "gint_lattice_max": 5, "time_n": [3, 4, 5, 6], "coal_n": [2, 3, 4, 5, 6, 7],
-            "ss_n": [2, 3, 4, 5, 6], "G": [1, 2, 3], "G_big": {7: [1, 2]}}
+            "ss_n": [2, 3, 4, 5, 6], "G": [1, 2, 3], "G_big": {7: [1, 2]},
+            "pair_G": {2: 3, 3: 3, 4: 3, 5: 3, 6: 1, 7: 0}}
 
 
 def fields_for(N, lattice_max, seed):
@@ -185,10 +186,11 @@ def ss_items(tier, seed):
     ns = list(b["ss_n"]) + sorted(b["G_big"])
     for c in coal_configs(ns):
         Gs = b["G_big"].get(c["n"], b["G"])
-        items.append(("ss", dict(c, seed=seed, model="skyride")))
-        items.append(("ss", dict(c, seed=seed, model="skygrid_cutoff")))
+        c = dict(c, seed=seed, pair_G=b["pair_G"][c["n"]])
+        items.append(("ss", dict(c, model="skyride")))
+        items.append(("ss", dict(c, model="skygrid_cutoff")))
         for G in Gs:
-            items.append(("ss", dict(c, seed=seed, model="skygrid", G=G)))
+            items.append(("ss", dict(c, model="skygrid", G=G)))
     return items
 
 
@@ -197,56 +199,148 @@ def ss_items(tier, seed):
 # ---------------------------------------------------------------------------------------
 
 class Genealogy:
-    """times, tree and node-height vectors of one (interleaving, ties, seed)"""
+    """times, tree and node-height vectors of one (interleaving A, ties, seed).
+
+    Second batch rows are *different* genealogies over the same sampling times:
+      * `realise(B)`  - coalescent times that realise another interleaving B of the same tips
+        (the sorted event list then differs between the batch rows),
+      * `alt_bottom_up(rule)` - heights drawn bottom-up on the tree itself, so that the rank
+        order of the internal nodes differs from row 0 whenever the tree allows it."""
 
     def __init__(self, inter, ties, seed):
         self.inter = inter
+        self.ties = ties
+        self.seed = seed
         self.n = inter.count("s")
         self.times = gen.event_times(inter, seed, ties)
-        self.times_b = gen.shifted_times(inter, self.times, seed)
         self.s, self.c = gen.sampling_and_coalescent_times(inter, self.times)
-        _, self.c_b = gen.sampling_and_coalescent_times(inter, self.times_b)
+        self._top = {}
 
-    def heights(self, which="a", shuffled=False):
+    # -- rows --------------------------------------------------------------------------
+    def heights(self, c=None, shuffled=False):
         """node-height vector [sampling..., coalescent...]; shuffled: both blocks reversed
         (the distributions must not depend on the order inside a block)"""
-        c = self.c if which == "a" else self.c_b
         s = list(self.s)
-        c = list(c)
+        c = list(self.c if c is None else c)
         if shuffled:
             s, c = s[::-1], c[::-1]
         return s + c
 
-    def tree_spec(self, rule, which="a"):
-        """TimeTreeModel JSON; internal heights follow the post-order of the Newick string,
-        `which` = 'a', 'b' or 'ab' (batched)"""
-        top, labels, order = gen.tree_of(self.inter, rule)
-        post = en.clades(top)
-        rows = []
-        for c in ([self.c] if which == "a" else [self.c_b] if which == "b" else [self.c, self.c_b]):
-            tc = dict(zip(order, c))
-            rows.append([tc[x] for x in post])
-        spec = tb.time_tree(top, labels, list(self.s), rows if which == "ab" else rows[0])
-        return spec, labels, order
+    def realise(self, inter_b, avoid=()):
+        """sorted coalescent times realising interleaving `inter_b` on THIS genealogy's
+        sampling times, or None when tied sampling times make it impossible"""
+        if inter_b.count("s") != self.n:
+            raise ValueError("interleavings of different size")
+        groups = [0] * self.n  # coalescences after the k-th sampling (before the next one)
+        k = -1
+        for e in inter_b:
+            if e == "s":
+                k += 1
+            else:
+                groups[k] += 1
+        fr = gen.generic(self.n - 1, self.seed, 0.0, 1.0, salt=5)
+        taken = set(avoid) | set(self.s)
+        out = []
+        for k, m in enumerate(groups):
+            if m == 0:
+                continue
+            lo = self.s[k]
+            hi = self.s[k + 1] if k + 1 < self.n else None
+            if hi is not None and not hi > lo:
+                return None
+            t = lo
+            for j in range(m):
+                f = fr[len(out)]
+                t = round(lo + (hi - lo) * (j + f) / m, 6) if hi is not None else round(t + 0.2 + 1.1 * f, 6)
+                while t in taken:
+                    t = round(t + 1e-4, 6)
+                if hi is not None and not t < hi:
+                    raise RuntimeError("harness: could not place a coalescent time")
+                taken.add(t)
+                out.append(t)
+        if out != sorted(out) or len(out) != self.n - 1:
+            raise RuntimeError("harness: realise() produced unordered times")
+        # self-check: the merged event list spells inter_b
+        ev = sorted([(t, 0, "s") for t in self.s] + [(t, 1, "c") for t in out])
+        if "".join(e for _, _, e in ev) != inter_b:
+            raise RuntimeError("harness: realise() does not realise the interleaving")
+        return out
 
-    def load_tree(self, rule, which="a"):
+    # -- tree --------------------------------------------------------------------------
+    def topology(self, rule):
+        if rule not in self._top:
+            self._top[rule] = gen.tree_of(self.inter, rule)
+        return self._top[rule]
+
+    def by_order(self, rule, c):
+        """clade -> height: the k-th coalescent time (sorted) goes to the node created by the
+        k-th coalescence of A.  With rule 'front' (caterpillar over the sampling order) this is
+        a valid tree for every interleaving over the same sampling times."""
+        _, _, order = self.topology(rule)
+        return dict(zip(order, c))
+
+    def alt_bottom_up(self, rule):
+        """clade -> height, drawn bottom-up (parent = max(children) + generic increment); among
+        a few generic draws the first whose rank order of internal nodes differs from row 0"""
+        top, labels, order = self.topology(rule)
+        tip = dict(zip(labels, self.s))
+        post = en.clades(top)
+        base = self.by_order(rule, self.c)
+        rank0 = sorted(post, key=lambda c: base[c])
+        last = None
+        for salt in range(40, 52):
+            inc = iter(gen.generic(self.n - 1, self.seed, 0.15, 1.6, salt))
+            hs = {}
+
+            def rec(x):
+                if not isinstance(x, tuple):
+                    return tip[x]
+                h = round(max(rec(x[0]), rec(x[1])) + next(inc), 6)
+                hs[frozenset(en.leaves(x))] = h
+                return h
+
+            rec(top)
+            if len(set(hs.values())) != len(hs):
+                continue
+            last = hs
+            if sorted(post, key=lambda c: hs[c]) != rank0:
+                return hs
+        if last is None:
+            raise RuntimeError("harness: no tie-free alternative heights")
+        return last
+
+    def tree_spec(self, rule, rows):
+        """TimeTreeModel JSON; `rows`: list of {clade: height} (one -> unbatched); internal
+        heights follow the post-order of the Newick string"""
+        top, labels, _ = self.topology(rule)
+        post = en.clades(top)
+        vals = [[r[x] for x in post] for r in rows]
+        return tb.time_tree(top, labels, list(self.s), vals if len(vals) > 1 else vals[0]), labels
+
+    def load_tree(self, rule, rows=None):
         """loads the tree and verifies (harness self-check) that the loaded node heights are
-        the event times of this genealogy"""
-        spec, labels, order = self.tree_spec(rule, which)
+        the wanted ones, node by node"""
+        rows = rows if rows is not None else [self.by_order(rule, self.c)]
+        spec, labels = self.tree_spec(rule, rows)
         dic = tt.load(spec)
         model = dic["tree"]
-        nh = _np(model.node_heights)
+        nh = _np(model.node_heights).reshape(-1, 2 * self.n - 1)
         cl = tb.index_clades(model, labels)
-        rows = nh.reshape(-1, 2 * self.n - 1)
-        cs = {"a": [self.c], "b": [self.c_b], "ab": [self.c, self.c_b]}[which]
-        for r, c in zip(rows, cs):
-            tc = dict(zip(order, c))
+        if nh.shape[0] != len(rows):
+            raise RuntimeError("harness: batch size of the loaded tree")
+        for r, want in zip(nh, rows):
             for i in range(self.n):
                 if r[i] != self.s[i]:
                     raise RuntimeError(f"harness: tip {i} loaded at {r[i]}, wanted {self.s[i]}")
             for i in range(self.n, 2 * self.n - 1):
-                if r[i] != tc[cl[i]]:
-                    raise RuntimeError(f"harness: node {i} loaded at {r[i]}, wanted {tc[cl[i]]}")
+                if r[i] != want[cl[i]]:
+                    raise RuntimeError(f"harness: node {i} loaded at {r[i]}, wanted {want[cl[i]]}")
+        top, _, _ = self.topology(rule)
+        tipc = {frozenset([lab]): t for lab, t in zip(labels, self.s)}
+        for want in rows:
+            for child, parent in en.parent_map(top).items():
+                if not want[parent] > (want[child] if child in want else tipc[child]):
+                    raise RuntimeError("harness: built an invalid tree (parent not above child)")
         return dic
 
 
@@ -292,11 +386,14 @@ def make_model(base, var, field, precision=None, integrated=None):
 
 
 def base_dic(var, seed, which="a"):
-    """objects a variant needs besides the GMRF itself (the tree of a time-aware variant)"""
+    """objects a variant needs besides the GMRF itself: the tree of a time-aware variant
+    with row 'a' (the genealogy), 'b' (alternative heights on the same tree) or both"""
     if var["kind"] != "time":
         return {}
     g = Genealogy(var["inter"], var["ties"], seed)
-    return g.load_tree(var["rule"], which)
+    ra = g.by_order(var["rule"], g.c)
+    rb = g.alt_bottom_up(var["rule"])
+    return g.load_tree(var["rule"], {"a": [ra], "b": [rb], "ab": [ra, rb]}[which])
 
 
 def load_in(base, spec):
@@ -333,10 +430,8 @@ def gmrf_points(cfg):
 
 
 def gmrf_sig(cfg, check):
-    s = {"part": "gmrf", "variant": var_tag(cfg["var"]), "batch": cfg["batch"], "check": check}
-    if cfg["var"]["kind"] == "time":
-        s["rescale"] = cfg["var"]["rescale"]
-    return s
+    return {"part": "gmrf", "variant": var_tag(cfg["var"]), "check": check,
+            "batched": cfg["batch"] != "none"}
 
 
 def check_gmrf_point(cfg, field, precision, base=None):
@@ -447,10 +542,7 @@ def gint_reference(var, base, field):
 
 
 def gint_sig(cfg, check, batch):
-    s = {"part": "gint", "variant": var_tag(cfg["var"]), "batch": batch, "check": check}
-    if cfg["var"]["kind"] == "time":
-        s["rescale"] = cfg["var"]["rescale"]
-    return s
+    return {"part": "gint", "variant": var_tag(cfg["var"]), "check": check, "batched": batch != "none"}
 
 
 def check_gint_point(cfg, field, batch, bases=None, refs=None):
@@ -532,7 +624,19 @@ def work_gint(cfg):
 # part cint
 # ---------------------------------------------------------------------------------------
 
+_CINT_REFS = {}
+
+
 def cint_reference(heights):
+    key = tuple(heights)
+    if key not in _CINT_REFS:
+        if len(_CINT_REFS) > 20000:
+            _CINT_REFS.clear()
+        _CINT_REFS[key] = _cint_reference(heights)
+    return _CINT_REFS[key]
+
+
+def _cint_reference(heights):
     import torch
     from torchtree.evolution.coalescent import ConstantCoalescent
 
@@ -554,76 +658,98 @@ def cint_reference(heights):
 CINT_ROUTES = ("dist", "dist_shuffled", "tree_front", "tree_last", "dist_batched", "tree_batched")
 
 
-def cint_value(g, route, a, b):
+def cint_value(g, route, a, b, c_b=None):
     """value(s) of the integrated coalescent through one construction route"""
     import torch
     from torchtree.evolution.coalescent import ConstantCoalescentIntegrated
 
     if route in ("dist", "dist_shuffled"):
-        nh = torch.tensor(g.heights("a", shuffled=route == "dist_shuffled"))
+        nh = torch.tensor(g.heights(shuffled=route == "dist_shuffled"))
         return _np(ConstantCoalescentIntegrated(a, b).log_prob(nh))
     if route == "dist_batched":
-        nh = torch.tensor([g.heights("a"), g.heights("b", shuffled=True)])
+        nh = torch.tensor([g.heights(), g.heights(c_b, shuffled=True)])
         return _np(ConstantCoalescentIntegrated(a, b).log_prob(nh))
-    which = "ab" if route == "tree_batched" else "a"
-    rule = "last" if route == "tree_last" else "front"
-    dic = g.load_tree(rule, which)
+    if route == "tree_batched":
+        dic = g.load_tree("front", [g.by_order("front", g.c), g.by_order("front", c_b)])
+    else:
+        dic = g.load_tree("last" if route == "tree_last" else "front")
     tt.load({"id": "coal", "type": "ConstantCoalescentIntegratedModel", "tree_model": "tree",
              "alpha": a, "beta": b}, dic)
     return _np(dic["coal"]())
 
 
-def check_cint(cfg, routes=None):
+def check_cint(cfg, routes=None, only_b=None):
+    """all routes; the batched ones once per interleaving B of the same tips (second row)"""
     g = Genealogy(cfg["inter"], cfg["ties"], cfg["seed"])
-    refs = {}
-    for w in ("a", "b"):
-        got, err = cint_reference(g.heights(w))
-        if err:
-            return [(err[0], err[1], "reference")], 0
-        refs[w] = got
+    ref_a, err = cint_reference(g.heights())
+    if err:
+        return [(err[0], err[1], "reference", None)], 0, 0
     bad = []
     nev = 0
+    skipped = 0
     for route in (routes or CINT_ROUTES):
-        rows = ["a", "b"] if route.endswith("batched") else ["a"]
-        for a, b in ALPHA_BETA:
-            nev += 1
-            try:
-                v = cint_value(g, route, a, b)
-            except Exception as e:
-                bad.append(("raises", f"route {route} alpha={a} beta={b}: {_err(e)}", route))
-                break
-            if v.size != len(rows):
-                bad.append(("shape", f"route {route}: result of shape {v.shape} for {len(rows)} tree(s)", route))
-                break
-            v = v.reshape(-1)
+        batched = route.endswith("batched")
+        for inter_b in ((only_b,) if only_b else en.interleavings(g.n)) if batched else (None,):
+            c_b = None
+            refs = [ref_a]
+            if batched:
+                c_b = g.realise(inter_b)
+                if c_b is None:
+                    skipped += 1
+                    continue
+                ref_b, err = cint_reference(g.heights(c_b))
+                if err:
+                    return [(err[0], err[1], "reference", inter_b)], nev, skipped
+                refs.append(ref_b)
             hit = False
-            for r, w in enumerate(rows):
-                if not close(float(v[r]), refs[w][(a, b)], TOL_INT, part="cint"):
-                    bad.append(("integrated_vs_quadrature",
-                                f"route {route} row {r}: ConstantCoalescentIntegrated(alpha={a}, beta={b}) = "
-                                f"{float(v[r])!r}, log integral of InvGamma(theta) x ConstantCoalescent"
-                                f"(T | theta) d theta = {refs[w][(a, b)]!r}  (heights {g.heights(w)})", route))
+            for a, b in ALPHA_BETA:
+                nev += 1
+                try:
+                    v = cint_value(g, route, a, b, c_b)
+                except Exception as e:
+                    bad.append(("raises", f"route {route} alpha={a} beta={b}: {_err(e)}", route, inter_b))
                     hit = True
+                    break
+                if v.size != len(refs):
+                    bad.append(("shape", f"route {route}: result of shape {v.shape} for {len(refs)} tree(s)",
+                                route, inter_b))
+                    hit = True
+                    break
+                v = v.reshape(-1)
+                for r, want in enumerate(refs):
+                    if not close(float(v[r]), want[(a, b)], TOL_INT, part="cint"):
+                        bad.append(("integrated_vs_quadrature",
+                                    f"route {route} row {r}: ConstantCoalescentIntegrated(alpha={a}, beta={b}) = "
+                                    f"{float(v[r])!r}, log integral of InvGamma(theta) x ConstantCoalescent"
+                                    f"(T | theta) d theta = {want[(a, b)]!r}  (heights "
+                                    f"{g.heights(c_b if r else None)})", route, inter_b))
+                        hit = True
+                        break
+                if hit:
                     break
             if hit:
                 break
-    return bad, nev
+    return bad, nev, skipped
+
+
+def cint_sig(name, route):
+    return {"part": "cint", "check": name, "batched": route.endswith("batched")}
 
 
 def work_cint(cfg):
-    bad, nev = check_cint(cfg)
-    out = {"n": nev, "nontrivial": nev if nontrivial_inter(cfg["inter"]) else 0, "viol": {}, "nviol": len(bad)}
-    for name, detail, route in bad:
+    bad, nev, skipped = check_cint(cfg)
+    out = {"n": nev, "nontrivial": nev if nontrivial_inter(cfg["inter"]) else 0, "viol": {},
+           "nviol": len(bad), "pairs_infeasible": skipped}
+    for name, detail, route, inter_b in bad:
         key = (name, route)
         if key not in out["viol"]:
-            out["viol"][key] = ({"part": "cint", "cfg": cfg, "route": route}, detail,
-                                {"part": "cint", "check": name, "route": route})
+            out["viol"][key] = ({"part": "cint", "cfg": cfg, "route": route, "inter_b": inter_b}, detail,
+                                cint_sig(name, route))
     return out
 
 
 def nontrivial_inter(inter):
-    """a coalescence happens before the last sampling (heterochronous in an essential way)
-    or there are at least two coalescences"""
+    """at least two coalescences (several intervals with different lineage counts)"""
     return inter.count("c") >= 2
 
 
@@ -638,9 +764,9 @@ def ss_thetas(K, seed):
 SS_ROUTES = ("dist", "dist_shuffled", "tree", "data", "b_theta", "b_both", "b_heights", "b_tree")
 
 
-def ss_eval(cfg, g, grid, route, thetas):
+def ss_eval(cfg, g, grid, route, thetas, c_b):
     """returns (ss, counts, log_prob, theta rows, n rows) as numpy arrays; raises what the
-    implementation raises"""
+    implementation raises.  c_b: coalescent times of the second batch row"""
     import torch
     from torchtree.evolution.coalescent import PiecewiseConstantCoalescent, PiecewiseConstantCoalescentGrid
 
@@ -648,9 +774,9 @@ def ss_eval(cfg, g, grid, route, thetas):
     th_a, th_b = thetas
     if route in ("dist", "dist_shuffled", "b_theta", "b_both", "b_heights"):
         if route in ("b_both", "b_heights"):
-            nh = torch.tensor([g.heights("a"), g.heights("b", shuffled=True)])
+            nh = torch.tensor([g.heights(), g.heights(c_b, shuffled=True)])
         else:
-            nh = torch.tensor(g.heights("a", shuffled=route == "dist_shuffled"))
+            nh = torch.tensor(g.heights(shuffled=route == "dist_shuffled"))
         if route in ("b_theta", "b_both"):
             th = torch.tensor([th_a, th_b])
         else:
@@ -671,7 +797,10 @@ def ss_eval(cfg, g, grid, route, thetas):
             spec["events"] = [1 if e == "s" else 0 for e in g.inter]
             dic = tt.load(spec)
         else:
-            dic = g.load_tree("last", "ab" if route == "b_tree" else "a")
+            if route == "b_tree":
+                dic = g.load_tree("front", [g.by_order("front", g.c), g.by_order("front", c_b)])
+            else:
+                dic = g.load_tree("last")
             spec["tree_model"] = "tree"
             tt.load(spec, dic)
         m = dic["coal"]
@@ -679,12 +808,17 @@ def ss_eval(cfg, g, grid, route, thetas):
         ss, c = m.distribution().sufficient_statistics(m.tree_model.node_heights)
     th_rows = np.array([th_a, th_b]) if route in ("b_theta", "b_both", "b_tree") else np.array([th_a])
     nrows = 2 if route.startswith("b_") else 1
+    th_rows = np.broadcast_to(th_rows, (nrows, th_rows.shape[1]))
     return _np(ss), _np(c), _np(lp), th_rows, nrows
 
 
-def check_ss_case(cfg, placement, route, seed_thetas=None):
-    """one (interleaving, ties, model, grid placement, route); both theta vectors for the
-    unbatched routes.  returns (list of (name, detail), evaluations, nontrivial?, status)"""
+PAIR_ROUTES = ("b_both", "b_heights", "b_tree")
+
+
+def check_ss_case(cfg, placement, route, inter_b=None):
+    """one (interleaving, ties, model, grid placement, route[, interleaving of the second
+    batch row]); both theta vectors for the unbatched routes.
+    returns (list of (name, detail), evaluations, nontrivial?, status)"""
     g = Genealogy(cfg["inter"], cfg["ties"], cfg["seed"])
     n = g.n
     sky = cfg["model"] == "skyride"
@@ -699,7 +833,12 @@ def check_ss_case(cfg, placement, route, seed_thetas=None):
         grid = None if sky else gen.grid_of(g.times, tuple(placement), cfg["seed"])
         pts = set(grid or [])
         K = n - 1 if sky else len(grid) + 1
-    if pts & set(g.times + g.times_b):
+    c_b = None
+    if route in PAIR_ROUTES:
+        c_b = g.realise(inter_b or g.inter, avoid=pts)
+        if c_b is None:
+            return [], 0, False, "infeasible"
+    if pts & set(g.times + (c_b or [])):
         raise RuntimeError("harness: grid point on an event")
     th = ss_thetas(K, cfg["seed"])
     tsets = [th] if route.startswith("b_") else [th, th[::-1]]
@@ -709,7 +848,7 @@ def check_ss_case(cfg, placement, route, seed_thetas=None):
     for thetas in tsets:
         nev += 1
         try:
-            ss, c, lp, th_rows, nrows = ss_eval(cfg, g, grid, route, thetas)
+            ss, c, lp, th_rows, nrows = ss_eval(cfg, g, grid, route, thetas, c_b)
         except Exception as e:
             if route.startswith("b_"):
                 return [], nev, False, "raised"  # batched shapes failing loudly is allowed
@@ -732,7 +871,7 @@ def check_ss_case(cfg, placement, route, seed_thetas=None):
                 bad.append(("density_from_statistics",
                             f"row {r}: -sum ss/theta - sum c log(theta) = {val!r}, log_prob = {float(lp[r])!r}  "
                             f"(ss={ss[r].tolist()}, counts={c[r].tolist()}, theta={th_rows[r].tolist()}, "
-                            f"times={g.times if r == 0 else g.times_b}, grid={grid})"))
+                            f"heights={g.heights(c_b if r else None)}, grid={grid})"))
                 break
             if abs(float(np.sum(c[r])) - (n - 1)) > 0:
                 bad.append(("count_total", f"row {r}: coalescent counts {c[r].tolist()} sum to "
@@ -746,7 +885,8 @@ def check_ss_case(cfg, placement, route, seed_thetas=None):
 
 
 def ss_sig(cfg, route, name):
-    return {"part": "ss", "model": cfg["model"].split("_")[0], "route": route, "check": name}
+    return {"part": "ss", "model": cfg["model"].split("_")[0], "check": name,
+            "batched": route.startswith("b_")}
 
 
 def ss_placements(cfg):
@@ -760,29 +900,38 @@ def ss_placements(cfg):
     return pl
 
 
-def ss_routes(cfg, k):
-    """all routes on every placement for the distribution itself; the model-level and
-    batched routes on every placement too (they are cheap)"""
-    return SS_ROUTES
+def ss_second_rows(cfg):
+    """interleavings used for the second batch row: every interleaving of the same tips when
+    (n, G) is inside the pair bound, else only the interleaving of the first row"""
+    G = cfg.get("G", 0)
+    if G <= cfg["pair_G"]:
+        return en.interleavings(cfg["n"])
+    return [cfg["inter"]]
 
 
 def work_ss(cfg):
-    out = {"n": 0, "nontrivial": 0, "viol": {}, "nviol": 0, "raised": {}, "placements": 0}
-    for k, placement in enumerate(ss_placements(cfg)):
+    out = {"n": 0, "nontrivial": 0, "viol": {}, "nviol": 0, "raised": {}, "placements": 0,
+           "pairs": 0, "pairs_infeasible": 0}
+    seconds = ss_second_rows(cfg)
+    for placement in ss_placements(cfg):
         out["placements"] += 1
-        for route in ss_routes(cfg, k):
-            bad, nev, nontriv, status = check_ss_case(cfg, placement, route)
-            out["n"] += nev
-            if nontriv:
-                out["nontrivial"] += nev
-            if status == "raised":
-                out["raised"][route] = out["raised"].get(route, 0) + 1
-            for name, detail in bad:
-                out["nviol"] += 1
-                key = (name, route)
-                if key not in out["viol"]:
-                    out["viol"][key] = ({"part": "ss", "cfg": cfg, "placement": list(placement), "route": route},
-                                        detail, ss_sig(cfg, route, name))
+        for route in SS_ROUTES:
+            for inter_b in (seconds if route in PAIR_ROUTES else (None,)):
+                bad, nev, nontriv, status = check_ss_case(cfg, placement, route, inter_b)
+                out["n"] += nev
+                if nontriv:
+                    out["nontrivial"] += nev
+                if inter_b is not None and status != "n/a":
+                    out["pairs" if status != "infeasible" else "pairs_infeasible"] += 1
+                if status == "raised":
+                    out["raised"][route] = out["raised"].get(route, 0) + 1
+                for name, detail in bad:
+                    out["nviol"] += 1
+                    key = (name, route)
+                    if key not in out["viol"]:
+                        out["viol"][key] = ({"part": "ss", "cfg": cfg, "placement": list(placement),
+                                             "route": route, "inter_b": inter_b}, detail,
+                                            ss_sig(cfg, route, name))
     return out
 
 
@@ -831,6 +980,7 @@ def run(run):
     per = {k: {"items": 0, "evaluations": 0, "nontrivial": 0, "failing": 0} for k in WORK}
     raised = {}
     placements = 0
+    pairs = {"explored": 0, "infeasible_because_of_tied_samplings": 0}
     samples = {}
     maxerr = {}
     for chunk, errs in res:
@@ -843,6 +993,8 @@ def run(run):
             p["nontrivial"] += out["nontrivial"]
             p["failing"] += out["nviol"]
             placements += out.get("placements", 0)
+            pairs["explored"] += out.get("pairs", 0)
+            pairs["infeasible_because_of_tied_samplings"] += out.get("pairs_infeasible", 0)
             for r, k in out.get("raised", {}).items():
                 raised[r] = raised.get(r, 0) + k
             samples.setdefault(kind, cfg)
@@ -862,15 +1014,19 @@ def run(run):
         "distinct_nontrivial": sum(p["nontrivial"] for p in per.values()),
         "rule": "gmrf: every (N, variant, batch mode) x field lattice {-1,0.5,2}^N (N<=lattice_max, else 5 "
                 "generic fields) x precision {0.1,1,10}; gint: same variants x fields x 9 (shape,rate) x "
-                "{single, field-batched, tree-batched}; cint: every interleaving x sampling-tie mode x 12 "
-                "(alpha,beta) x 6 construction routes; ss: every interleaving x tie mode x every multiset "
-                "placement of G grid points in the gaps/beyond the root x 8 routes x theta vectors. "
+                "{single, field-batched, tree-batched (second row: other heights on the same tree)}; cint: every "
+                "interleaving x sampling-tie mode x 12 (alpha,beta) x 6 construction routes, the batched ones "
+                "with EVERY interleaving of the same tips as second row; ss: every interleaving x tie mode x "
+                "every multiset placement of G grid points in the gaps/beyond the root (+6 cut-off grids) x 8 "
+                "routes x theta vectors, the height-batched routes with every interleaving of the same tips "
+                "as second row for G <= pair_G[n]. "
                 "non-trivial = non-constant field (gmrf, gint), >= 2 coalescences (cint), >= 2 non-zero "
                 "statistics (ss); each enumerated case is distinct by construction",
         "samples": [{"part": k, "cfg": samples[k]} for k in sorted(samples)],
         "exhaustive": True,
         "per_part": per,
         "grid_placements": placements,
+        "batch_row_interleaving_pairs": pairs,
         "batched_routes_that_raised": raised,
         "bounds": b,
         "quadrature_vs_mpmath_max_rel": qerr,
@@ -905,12 +1061,12 @@ def replay(case):
         for name, detail in bad:
             out.append({"case": case, "detail": detail, "sig": gint_sig(case["cfg"], name, case["batch"])})
     elif part == "cint":
-        bad, _ = check_cint(case["cfg"], routes=[case["route"]] if case["route"] != "reference" else None)
-        for name, detail, route in bad:
-            out.append({"case": case, "detail": detail,
-                        "sig": {"part": "cint", "check": name, "route": route}})
+        bad, _, _ = check_cint(case["cfg"], routes=[case["route"]] if case["route"] != "reference" else None,
+                               only_b=case.get("inter_b"))
+        for name, detail, route, _ in bad:
+            out.append({"case": case, "detail": detail, "sig": cint_sig(name, route)})
     else:
-        bad, _, _, _ = check_ss_case(case["cfg"], case["placement"], case["route"])
+        bad, _, _, _ = check_ss_case(case["cfg"], case["placement"], case["route"], case.get("inter_b"))
         for name, detail in bad:
             out.append({"case": case, "detail": detail, "sig": ss_sig(case["cfg"], case["route"], name)})
     return out
